@@ -109,6 +109,44 @@ fn strategy(tier: Tier) -> BoxedStrategy<Case> {
         .boxed()
 }
 
+#[derive(Debug, Clone, Serialize, Deserialize)]
+pub struct MegaCase {
+    pub lines: usize,
+    pub flavour: Flavour,
+    pub chunk: usize,
+}
+
+/// One response with a very large number of short lines, then a second small one.
+pub fn check_mega(case: &MegaCase) -> CaseResult {
+    let mut r = CaseResult::new();
+    let mut stream = Vec::with_capacity(case.lines * 5 + 16);
+    for i in 0..case.lines {
+        stream.extend_from_slice(if i % 2 == 0 { b"a: b\n" } else { b"c: d\n" });
+    }
+    stream.extend_from_slice(b"OK\nz: y\nOK\n");
+    let seg = if case.chunk == 0 { Seg::Whole } else { Seg::Chunk(case.chunk) };
+    let obs = run(case.flavour, GREETING, &stream, &seg, 0);
+    r.nontrivial();
+    r.class(if case.lines > 65_536 { "more_than_65536_lines" } else { "up_to_65536_lines" });
+    let ok = obs.responses.len() == 2
+        && obs.responses[0].frames.len() == 1
+        && obs.responses[0].frames[0].fields.len() == case.lines
+        && obs.responses[0].frames[0].fields.last().map(|(k, _)| k.as_str()) == Some(if case.lines % 2 == 1 { "a" } else { "c" })
+        && obs.responses[1].frames[0].fields == vec![("z".to_string(), "y".to_string())]
+        && obs.terminal == Terminal::CleanEof;
+    if !ok {
+        r.fail(format!(
+            "response of {} lines + a second response, {:?}/{seg:?}: {} response(s), first has {} fields, terminal {:?}",
+            case.lines,
+            case.flavour,
+            obs.responses.len(),
+            obs.responses.first().and_then(|x| x.frames.first()).map_or(0, |f| f.fields.len()),
+            obs.terminal
+        ));
+    }
+    r
+}
+
 pub fn property(_tier: Tier) -> Property {
     Property {
         id: "C03",
@@ -119,6 +157,19 @@ pub fn property(_tier: Tier) -> Property {
             cases: (6_000, 400_000),
             strategy: Box::new(strategy),
             check: Box::new(check),
+        }), Box::new(crate::core::ExhaustivePart {
+            name: "mega_responses",
+            rule: "one response of N short lines followed by a small one, N in {65535, 65536, 65537, 131073, 200000, 300000 (thorough: + 1000000)} x {blocking, async} x {whole (the buffer doubles up to 4 MiB), 60000-byte chunks}: both responses must be delivered completely, then a clean end",
+            space: Box::new(|t: Tier| {
+                let mut sizes = vec![65_535usize, 65_536, 65_537, 131_073, 200_000, 300_000];
+                if t == Tier::Thorough {
+                    sizes.push(1_000_000);
+                }
+                Box::new(sizes.into_iter().flat_map(|lines| {
+                    [Flavour::Blocking, Flavour::Async].into_iter().flat_map(move |flavour| [0usize, 60_000].into_iter().map(move |chunk| MegaCase { lines, flavour, chunk }))
+                }))
+            }),
+            check: Box::new(check_mega),
         })],
         assumptions: vec![
             "the harness encoder (vlib::wire) defines 'well-formed server output'",
